@@ -270,7 +270,7 @@ func HarnessC11Str() {
 	}
 }
 
-var c11ArrFuncs = []string{"len", "join", "reverse", "slice1", "slice2", "append", "prepend", "contains", "shuffle", "rand", "append-twice", "slice-then-append"}
+var c11ArrFuncs = []string{"len", "join", "reverse", "slice1", "slice2", "append", "prepend", "contains", "shuffle", "rand", "append-twice", "slice-then-append", "join-strings"}
 
 func hIntArray(name string, maxLen int) ([]int64, *object.Array) {
 	n := vChoice(name+".n", maxLen+1)
@@ -409,6 +409,21 @@ func HarnessC11Arr() {
 		vAssert(hSameInts(first, append(append([]int64{}, baseVals...), x)), "append-extends-the-array")
 		vAssert(hSameInts(second, append(append([]int64{}, baseVals...), y)), "append-extends-the-array")
 		vAssert(hSameInts(hIntsOf(r1, "append"), append(append([]int64{}, baseVals...), x)), "a-later-call-does-not-change-an-earlier-result")
+	case "join-strings":
+		// elements that print as the empty string still take part: n elements give n-1 separators
+		m := vChoice("strs", 4)
+		var elems []object.Object
+		want := ""
+		for i := 0; i < m; i++ {
+			e := []string{"", "b"}[vChoice("elem", 2)]
+			elems = append(elems, &object.Str{Value: e})
+			if i > 0 {
+				want += "-"
+			}
+			want += e
+		}
+		res, err := hCall(T, "join", &object.Array{Elements: elems}, &object.Str{Value: "-"})
+		vAssert(vEqStr(hStrResult(res, err, "join"), want), "join-puts-the-separator-between-all-elements")
 	case "contains":
 		x := vInt64("x")
 		res, err := hCall(T, "contains", recv, &object.Int{Value: x})
